@@ -82,11 +82,46 @@ fn on_cycle(succ: &[Vec<usize>]) -> Vec<bool> {
     (0..n).map(|a| reach[a][a]).collect()
 }
 
-fn corpus() -> Vec<(&'static str, P)> {
+/// built once per process
+fn corpus() -> &'static Vec<(&'static str, P)> {
+    static C: std::sync::OnceLock<Vec<(&'static str, P)>> = std::sync::OnceLock::new();
+    C.get_or_init(corpus_build)
+}
+
+fn corpus_build() -> Vec<(&'static str, P)> {
     let mut v: Vec<(&'static str, P)> = gen::corpus_shapes();
     // chain of 10^4 operations with shuffled edge numbering (closed form: layer = position)
     v.push(("stress_chain_3k", chain(3_000, 7)));
+    // one dependency of multiplicity 80: e0 writes node 0 eighty times over, e1 reads it eighty times
+    v.push(("multiplicity_80", POh { w: vec![0, 0], e: vec![PEdge { l: 0, s: vec![1], t: vec![0; 80] }, PEdge { l: 1, s: vec![0; 80], t: vec![] }], s: vec![1], t: vec![] }));
+    // 80 x 80 parallel dependencies between two operations over 80 distinct nodes, each used once
+    v.push(("parallel_dependencies_80", POh { w: vec![0; 80], e: vec![PEdge { l: 0, s: vec![], t: (0..80).collect() }, PEdge { l: 1, s: (0..80).rev().collect(), t: vec![] }], s: vec![], t: vec![] }));
+    // ring of 600 operations with a tail of 300 hanging off it and 300 independent ones in a chain
+    v.push(("stress_ring_with_tail", ring_with_tail(600, 300, 300, 11)));
     v
+}
+
+/// ring of `k` operations, a path of `tail` operations leaving it, and an independent chain of `free`
+pub fn ring_with_tail(k: usize, tail: usize, free: usize, seed: u64) -> P {
+    let mut r = Rng(seed);
+    let mut e: Vec<PEdge<u64>> = vec![];
+    // ring nodes 0..k, tail nodes k..k+tail, chain nodes k+tail..k+tail+free+1
+    for i in 0..k {
+        e.push(PEdge { l: 0, s: vec![i], t: vec![(i + 1) % k] });
+    }
+    for j in 0..tail {
+        let from = if j == 0 { k / 2 } else { k + j - 1 };
+        e.push(PEdge { l: 1, s: vec![from], t: vec![k + j] });
+    }
+    let base = k + tail;
+    for j in 0..free {
+        e.push(PEdge { l: 2, s: vec![base + j], t: vec![base + j + 1] });
+    }
+    let n = base + free + 1;
+    let p = POh { w: vec![0; n], e, s: vec![base], t: vec![n - 1] };
+    let eo = r.perm(p.e.len());
+    let np = r.perm(n);
+    p.renumber(&np, &eo)
 }
 
 pub fn chain(n: usize, seed: u64) -> P {
@@ -256,9 +291,10 @@ impl C15 {
                         }
                     }
                 }
-                let once = (0..p.e.len()).all(|y| u[y] == 1 || seen[y] == 1);
+                let once = (0..p.e.len()).all(|y| u[y] != 0 || seen[y] == 1);
+                let same_flags = unv.0.len() == u.len() && unv.0.iter().zip(u.iter()).all(|(a, b)| (*a != 0) == (*b != 0));
                 ctx.check(
-                    once && wrong_group.is_none() && !out_of_range && unv.0 == *u,
+                    once && wrong_group.is_none() && !out_of_range && same_flags,
                     &format!("layered_operations/exactly-once-in-own-group/value/{}", cls),
                     || {
                         json!({"input": input(), "layer": o, "unvisited": u,
@@ -279,7 +315,7 @@ impl C15 {
         if let Some(adj) = must_return(ctx, "operation_adjacency", cls, r, input) {
             match seg_to_lists(&adj) {
                 Ok(l) => {
-                    let ok = l.len() == succ.len() && l.iter().zip(succ.iter()).all(|(a, b)| same_multiset(a, b));
+                    let ok = l.len() == succ.len() && l.iter().zip(succ.iter()).all(|(a, b)| same_multiset(a, b)) && adj.values.target == succ.len();
                     ctx.check(ok, &format!("operation_adjacency/multiset/value/{}", cls), || {
                         json!({"input": input(), "observed": l, "expected_as_multisets": succ})
                     });
@@ -294,13 +330,25 @@ impl C15 {
         if let Some(adj) = must_return(ctx, "node_adjacency", cls, r, input) {
             match seg_to_lists(&adj) {
                 Ok(l) => {
-                    let ok = l.len() == nsucc.len() && l.iter().zip(nsucc.iter()).all(|(a, b)| same_multiset(a, b));
+                    let ok = l.len() == nsucc.len() && l.iter().zip(nsucc.iter()).all(|(a, b)| same_multiset(a, b)) && adj.values.target == nsucc.len();
                     ctx.check(ok, &format!("node_adjacency/multiset/value/{}", cls), || {
                         json!({"input": input(), "observed": l, "expected_as_multisets": nsucc})
                     });
                 }
                 Err(e) => {
                     ctx.check(false, &format!("node_adjacency/well-formed/value/{}", cls), || json!({"input": input(), "observed": e}));
+                }
+            }
+        }
+        let r = guard(|| hooks::node_adjacency_from_incidence(&lf.h.s, &lf.h.t));
+        if let Some(adj) = must_return(ctx, "node_adjacency_from_incidence", cls, r, input) {
+            match seg_to_lists(&adj) {
+                Ok(l) => {
+                    let ok = l.len() == nsucc.len() && l.iter().zip(nsucc.iter()).all(|(a, b)| same_multiset(a, b)) && adj.values.target == nsucc.len();
+                    ctx.check(ok, &format!("node_adjacency_from_incidence/multiset/value/{}", cls), || json!({"input": input(), "observed": l, "expected_as_multisets": nsucc}));
+                }
+                Err(e) => {
+                    ctx.check(false, &format!("node_adjacency_from_incidence/well-formed/value/{}", cls), || json!({"input": input(), "observed": e}));
                 }
             }
         }
@@ -353,6 +401,40 @@ impl C15 {
             });
         }
 
+        // in-degree relative to a set of vertices (chosen from the hash of the adjacency; distinct vertices)
+        if n > 0 {
+            let h = hash_of(&lists.to_vec());
+            let sel: Vec<usize> = (0..n).filter(|&v| (h >> (v % 60)) & 1 == 1).collect();
+            let mut want = vec![0usize; n];
+            for &k in &sel {
+                for &q in &lists[k] {
+                    want[q] += 1;
+                }
+            }
+            let inp = || json!({"adjacency": lists, "from": sel});
+            let r = guard(|| hooks::dense_relative_indegree(&adj, &ff(sel.clone(), n)));
+            if let Some(d) = must_return(ctx, "dense_relative_indegree", cls, r, inp) {
+                ctx.check(d.table.0 == want, "dense_relative_indegree/counts/value/raw_adjacency", || json!({"input": inp(), "observed": d.table.0, "expected": want}));
+            }
+            let r = guard(|| hooks::sparse_relative_indegree(&adj, &ff(sel.clone(), n)));
+            if let Some((ix, cnt)) = must_return(ctx, "sparse_relative_indegree", cls, r, inp) {
+                let mut got = vec![0usize; n];
+                let mut ok = ix.table.0.len() == cnt.table.0.len();
+                let mut seen = vec![false; n];
+                if ok {
+                    for (&v, &c) in ix.table.0.iter().zip(cnt.table.0.iter()) {
+                        if v >= n || seen[v] || c == 0 {
+                            ok = false;
+                            break;
+                        }
+                        seen[v] = true;
+                        got[v] = c;
+                    }
+                }
+                ctx.check(ok && got == want, "sparse_relative_indegree/each-reached-vertex-once-with-count/value/raw_adjacency", || json!({"input": inp(), "observed_vertices": ix.table.0, "observed_counts": cnt.table.0, "expected_dense": want}));
+            }
+        }
+
         let r = guard(|| hooks::kahn(&adj));
         if let Some((order, unv)) = must_return(ctx, "kahn", cls, r, input) {
             match judge_layering(lists, &order.0, &unv.0) {
@@ -394,6 +476,12 @@ impl Monitor for C15 {
             ("class:no_operations", 5),
             ("class:depth_ge3", 20),
             ("class:stress_chain_3k", 1),
+            ("class:multiplicity_80", 1),
+            ("class:parallel_dependencies_80", 1),
+            ("class:stress_ring_with_tail", 1),
+            ("api:dense_relative_indegree", 100),
+            ("api:sparse_relative_indegree", 100),
+            ("api:node_adjacency_from_incidence", 500),
             ("class:layer_wider_than_16", 50),
             ("api:layer", 500),
             ("api:layered_operations", 500),
@@ -414,7 +502,9 @@ impl Monitor for C15 {
         }
         if r.chance(1, 4) {
             let n = r.small(6);
-            let lists: Vec<Vec<usize>> = (0..n).map(|_| { let k = r.small(5); r.vec_below(k, n) }).collect();
+            // short lists, or (one time in ten) lists of up to 40 entries: multiplicities far above the vertex count
+            let long = r.chance(1, 10);
+            let lists: Vec<Vec<usize>> = (0..n).map(|_| { let k = if long { r.small(40) } else { r.small(5) }; r.vec_below(k, n) }).collect();
             self.judge_adjacency(ctx, &lists);
             return;
         }
